@@ -3,7 +3,7 @@
    Model/ClientContent.v, the proofs Proofs/ClientContent{Ops,Fmp4,Main}.v. *)
 From Coq Require Import List ZArith Bool String.
 From GoHls Require Import Model.ClientContent Proofs.ClientContentOps Proofs.ClientContentFmp4
-     Proofs.ClientContentMain.
+     Proofs.ClientContentMain Proofs.ClientContentFixes.
 Import ListNotations.
 Local Open Scope Z_scope.
 
@@ -187,3 +187,52 @@ Theorem c13_no_busy_loop_downloader : forall answers fuel first cur pl,
   (List.length answers < fuel)%nat -> is_oof (runTraditional fuel first cur pl answers) = false.
 Proof. exact runTraditional_fuel. Qed.
 Print Assumptions c13_no_busy_loop_downloader.
+
+(* ---- behaviour after the C09 fixes in /repo (8f9d4a5, d590576 + c9db2ec); the model follows them ---- *)
+
+(* checkSupport: exactly the strings with one of the six prefixes, or "opus" *)
+Theorem c13_checkSupport : forall codec,
+  codec_supported codec = true <->
+  (String.prefix "avc1." codec = true \/ String.prefix "hvc1." codec = true \/ String.prefix "hev1." codec = true
+   \/ String.prefix "mp4a." codec = true \/ String.prefix "av01." codec = true \/ String.prefix "vp09." codec = true
+   \/ codec = "opus"%string).
+Proof. exact codec_supported_spec. Qed.
+Print Assumptions c13_checkSupport.
+
+Example c13_checkSupport_ex :
+  checkSupport ["av01.0.08M.08.0.110.01.01.01.0"; "vp09.00.10.08"; "opus"]%string = true
+  /\ checkSupport ["avc1.640028"; "ac-3"]%string = false.
+Proof. split; reflexivity. Qed.
+
+(* an fMP4 segment / Low-Latency part whose parts hold no track at all is skipped without any effect by a
+   rendition's stream processor, and by the leading one once its track processors exist ... *)
+Theorem c13_empty_segment_skipped : forall p c el seg counts parts,
+  fg_parts seg = Some parts -> parts_empty parts = true ->
+  (f_isLeading p = false \/ f_procs p <> None) ->
+  fmp4_processSegment p c el seg counts = Ok (p, c, counts).
+Proof. exact empty_segment_skipped. Qed.
+Print Assumptions c13_empty_segment_skipped.
+
+(* ... but it is still "could not find data of leading track" for a leading stream that has not created
+   the time converter (renditions wait for it: skipping there wedged the client, the regression of
+   d590576 repaired by c9db2ec), and for any segment that has tracks but not the leading one *)
+Theorem c13_empty_first_leading_segment : forall p c el seg counts parts,
+  fg_parts seg = Some parts -> parts_empty parts = true ->
+  f_isLeading p = true -> f_procs p = None ->
+  fmp4_processSegment p c el seg counts = Err ENoLeadingData.
+Proof. exact empty_first_leading_segment. Qed.
+Print Assumptions c13_empty_first_leading_segment.
+
+Theorem c13_segment_without_leading_track : forall p c el seg counts parts,
+  fg_parts seg = Some parts -> parts_empty parts = false ->
+  findFirstPartTrackOfLeadingTrack parts (f_leadingTrackID p) = None ->
+  fmp4_processSegment p c el seg counts = Err ENoLeadingData.
+Proof. exact nonempty_without_leading. Qed.
+Print Assumptions c13_segment_without_leading_track.
+
+Example c13_empty_segments_ex :
+  client_run_fixed sc_av1_empty_rendition_part 0 =
+    {| o_tracks := Some [Some GAV1; Some GMPEG4Audio]; o_counts := [[3%nat]; [2%nat]]; o_decodeErrors := 0;
+       o_end := Ok tt |}
+  /\ o_end (client_run_fixed sc_leading_empty_with_rendition 0) = Err ENoLeadingData.
+Proof. exact (conj av1_with_empty_rendition_part_plays leading_empty_segment_is_an_error). Qed.
